@@ -9,14 +9,19 @@ def run(tier, replay=None, v=None, memory_only=False):
     if memory_only: N = 400
     h = build_harness("h_mem", ["h_mem.c"])
     dump, res = os.path.join(wd, "mem.ndjson"), os.path.join(wd, "res.json")
-    sh([h, dump, str(N)], timeout=3300)
+    sh([h, dump, str(N), "0" if memory_only else "2" if tier == "quick" else "4"], timeout=3300)
     tlc("trace/TraceMemZero", wd=wd, env={"VERIF_IN": dump, "VERIF_OUT": res}, timeout=900)
     r = read_ndjson(res)[0]
     if not r["spec_ok"]: raise Infra("MemZero.tla self-check failed")
-    recs = read_ndjson(dump)
+    allrecs = read_ndjson(dump)
+    recs = [x for x in allrecs if "huge" not in x]; huge = [x for x in allrecs if "huge" in x]
     fns = sorted(set(x["fn"] for x in recs))
-    if r["records"] != len(fns) * (N + 1): raise Infra("incomplete dump")
+    if r["records"] != len(fns) * (N + 1) + len(huge) or (not memory_only and len(huge) != len(fns)): raise Infra("incomplete dump")
     for b in r["bad"][:40]:
+        if "huge" in b:
+            v.violation("%s:huge-length" % b["fn"], "%s: wrong answer or fault for a region of %d MiB + 3000 bytes (case %d of: non-zero byte just past 2^32 / last byte / all zero / byte at 2^31+5; %d of %d correct, %d faults)" %
+                        (b["fn"], b["len_mib"], b["bad_case"], b["correct"], b["cases"], b["faults"]), {"record": b})
+            continue
         if memory_only and not b["faults"]: continue
         what = ("fault" if b["faults"] else "all-zero region reported non-zero" if b["zero_wrong"] else "non-zero byte not detected")
         v.violation("%s:%s" % (b["fn"], what.split()[0]), "%s: %s at len=%d (placement idx %d, position %d; %d/%d positions detected)" %
@@ -25,9 +30,9 @@ def run(tier, replay=None, v=None, memory_only=False):
     if not own:
         cleanup(wd)
         return {"calls": tot, "faults": sum(x["faults"] for x in recs)}
-    cov = {"evaluations": tot, "distinct_nontrivial": sum(x["positions"] for x in recs), "exhaustive": True, "N": N, "variants": fns,
+    cov = {"evaluations": tot, "distinct_nontrivial": sum(x["positions"] for x in recs), "exhaustive": True, "N": N, "variants": fns, "huge_length_cases": sum(x["cases"] for x in huge),
            "rule": "for every variant, every len in 0..N, placements {end flush against an inaccessible page, start flush, interior at every alignment 0..63 for len<200 and 8 spread alignments beyond}: "
-                   "all-zero region with 0xFF neighbours must return 0; a single non-zero byte (0x01/0x80/0xFF rotating) at EVERY position must return non-zero; no access may fault. "
+                   "all-zero region with 0xFF neighbours must return 0; dense contents (whole region / last 16,32,64,128 bytes non-zero) must return non-zero; a region of 4 GiB + 3000 bytes (sparse, zero page) with one non-zero byte past 2^32 and all-zero; a single non-zero byte (0x01/0x80/0xFF rotating) at EVERY position must return non-zero; no access may fault. "
                    "Aggregates per (variant,len) are judged by TLC against MemZero.tla; distinct_nontrivial = (variant,len,placement,position) points with a non-zero byte",
            "samples": [recs[5], recs[len(recs) // 2]]}
     cleanup(wd)
